@@ -162,6 +162,7 @@ fn scenario(env: &Env, d: &mut Delta, rng: &mut impl Rng, sample: bool) {
             2 => 8 * rng.gen_range(1..=200),
             _ => rng.gen_range(1..=3000),
         };
+        let len = crate::cap(len);
         let payload = rng.bytes(len);
         let nm = rng.gen_range(1..=3);
         let mut mtus = vec![];
@@ -564,11 +565,11 @@ fn permutations(d: &mut Delta, rng: &mut impl Rng) {
 
 fn run(env: &Env, k: u64, d: &mut Delta) {
     let mut rng = scenario_rng("C11", env.seed, k);
-    let n = env.tier.pick(220, 640);
+    let n = env.tier.pick3(220, 640, 3);
     for i in 0..n {
         scenario(env, d, &mut rng, i == 0 && k < 3);
     }
-    for _ in 0..env.tier.pick(4, 10) {
+    for _ in 0..env.tier.pick3(4, 10, 1) {
         permutations(d, &mut rng);
     }
 }
